@@ -16,6 +16,7 @@ type c18Txn struct {
 	DataOp   int
 	NoopOp   int
 	AllOK    bool
+	Slow     bool // a per-recipient status arrives later than CommandTimeout after the previous reply
 }
 
 type c18X struct {
@@ -68,6 +69,14 @@ func genC18(t *Tape, tier string) *Scenario {
 			}
 			tx.Codes = append(tx.Codes, code)
 		}
+		if len(dp.Statuses) > 0 && t.Chance(1, 10) {
+			// a slow delivery: one recipient's status comes more than CommandTimeout
+			// (5 min) after the previous reply, all within SubmissionTimeout (12 min)
+			k := t.Intn(len(dp.Statuses))
+			dp.Statuses[k].Park = 6 * time.Minute
+			sc.Srv.ReadTO, sc.Srv.WriteTO = 0, 0
+			tx.Slow = true
+		}
 		cp.Data = append(cp.Data, dp)
 		tx.DataOp = len(cl.Ops)
 		cl.Ops = append(cl.Ops, ClientOp{Kind: opData, Body: []byte(fmt.Sprintf("message %d\r\n", m)), UseCb: cb})
@@ -109,7 +118,7 @@ func checkC18(sc *Scenario, h *History) []Violation {
 			v("C18.data", "transaction %d: DATA failed: %s", ti, d.DataErr)
 			continue
 		}
-		if d.End-d.Begin > int64(time.Minute) {
+		if d.End-d.Begin > int64(time.Minute) && !tx.Slow {
 			v("C18.close-waits", "transaction %d: Close returned after %v of fake time (err=%q): it waited for replies that never come", ti, time.Duration(d.End-d.Begin), d.Err)
 		}
 		if tx.UseCb {
@@ -120,11 +129,11 @@ func checkC18(sc *Scenario, h *History) []Violation {
 			if fmt.Sprint(d.Statuses) != fmt.Sprint(want) {
 				v("C18.statuses", "transaction %d: the callback reported %v, expected %v", ti, d.Statuses, want)
 			}
-			if d.Err != "" && d.End-d.Begin <= int64(time.Minute) {
+			if d.Err != "" && (d.End-d.Begin <= int64(time.Minute) || tx.Slow) {
 				v("C18.close-error", "transaction %d: Close with a callback returned %q", ti, d.Err)
 			}
 		} else {
-			if tx.AllOK && d.Err != "" && d.End-d.Begin <= int64(time.Minute) {
+			if tx.AllOK && d.Err != "" && (d.End-d.Begin <= int64(time.Minute) || tx.Slow) {
 				v("C18.close-error", "transaction %d: every recipient was accepted but Close returned %q", ti, d.Err)
 			}
 			if !tx.AllOK && d.Err == "" {
@@ -157,6 +166,9 @@ func classifyC18(sc *Scenario, h *History, st *Stats) string {
 		if !tx.AllOK {
 			st.Probes["recipient_refused_after_DATA"]++
 		}
+		if tx.Slow {
+			st.Faults["per_recipient_reply_later_than_CommandTimeout"]++
+		}
 		key = append(key, fmt.Sprintf("%d/%v/%v", len(tx.Rcpts), tx.Codes, tx.UseCb))
 	}
 	return fmt.Sprint(key)
@@ -187,7 +199,7 @@ func init() {
 		Real:        []string{"smtp.Client (NewClientLMTP, Mail, Rcpt, LMTPData, Data, dataCloser.Close, Noop, Quit)", "smtp.Server in LMTP mode, handleDataLMTP, statusCollector", "net/textproto"},
 		Stub:        []string{"net.Listener (SimListener)", "net.Conn (SimConn)", "Backend/LMTPSession (SimBackend)", "clock (synctest): a Close that waits for replies that never come costs 12 fake minutes and is detected as such"},
 		Assumptions: []string{"'Close returns once exactly those replies have been read' is judged as: within one fake minute, and the following NOOP gets its own reply"},
-		Required:    []string{"second_or_later_transaction", "recipient_refused_after_DATA", "recipient_refused_at_RCPT"},
+		Required:    []string{"second_or_later_transaction", "recipient_refused_after_DATA", "recipient_refused_at_RCPT", "per_recipient_reply_later_than_CommandTimeout"},
 		QuickRuns:   120000, ThoroughRuns: 2000000,
 	})
 }
